@@ -512,7 +512,7 @@ impl Deb822 {
                 }
                 i
             }
-            None => self.0.children().count(),
+            None => self.0.children_with_tokens().count(),
         };
         self.0
             .splice_children(insertion_point..insertion_point, to_insert);
